@@ -662,6 +662,48 @@ def _fields_eq(a, b):
     return True
 
 
+# ------------------------------------------------------------------------------ the Example of props/C07.v
+def example_session():
+    """Row/SessionExamples.v: Question / FollowUp(Question) and the history of C07_session_nonvacuous_run"""
+    question = [("ID", STR, ""), ("text", STR, ""), ("attempts", INT, 3), ("required", BOOL, True), ("weight", FLOAT, 1.0),
+                ("choices", ("list", STR), [])]
+    followup = [("attempts", INT, 1), ("required", BOOL, False), ("weight", FLOAT, 0.5), ("parent", STR, "")]
+    decls = [dict(kind="root", name="Question", parent=None, body=question, h2f={}, f2h={}),
+             dict(kind="derive", name="FollowUp", parent=0, body=followup, h2f=None, f2h=None)]
+    q1 = {"ID": "q1", "text": "How are you?", "attempts": 3, "required": True, "weight": 1.0, "choices": ["good", "a|b"]}
+    f2 = {"ID": "f2", "text": "Really?", "attempts": 3, "required": True, "weight": 1.0, "choices": [], "parent": "q1"}
+    ops = [dict(op="round", k=0, value=q1, targets=["choices"]),
+           dict(op="unparse", k=1, value=f2, targets=[], excluded=[]),
+           dict(op="new_parser", k=0),
+           dict(op="round", k=1, value=f2, targets=[])]
+    want = [("ok", q1),
+            ("ok", [("ID", "f2"), ("text", "Really?"), ("attempts", "3"), ("required", "True"), ("weight", "1.0"), ("parent", "q1")]),
+            ("ok", None), ("ok", f2)]
+    return decls, ops, want
+
+
+def probe_example(ctx, st):
+    """the session of the Coq Example on the real classes: the implementation must do what the theorem's instance says"""
+    decls, ops, want = example_session()
+    ctx.v.coverage["evaluations"] += len(ops)
+    st["example_session_steps"] = len(ops)
+    try:
+        fam, results, _ = run_one_session(decls, ops, True)
+    except Exception as e:
+        ctx.disagree("the session of C07_session_nonvacuous_run could not be run", _show_family(decls), "theorem", repr(e))
+        return
+    for i, (op, res, w) in enumerate(zip(ops, results, want)):
+        if res[0] == w[0] and (w[1] is None or c07_deep_eq(res[1], w[1])):
+            continue
+        if op["op"] == "round":
+            ctx.v.failing_input("session-roundtrip",
+                                f"the session of C07_session_nonvacuous_run: {_show_op(fam.flat, op)} after "
+                                f"{[_show_op(fam.flat, o) for o in ops[:i]]} returns {res!r}; family: {_show_family(decls)}",
+                                dict(fn="session", decls=j_decls(decls), ops=ops[:i + 1], share=True))
+        else:
+            ctx.disagree("the session of C07_session_nonvacuous_run: step result", _show_op(fam.flat, op), w, res)
+
+
 # ------------------------------------------------------------------------------ the stream
 def run_sessions(ctx, stats):
     rng, v, m = ctx.rng, ctx.v, ctx.model
@@ -671,6 +713,7 @@ def run_sessions(ctx, stats):
           "in_domain_steps": 0, "in_domain_steps_on_derived_after_ancestor_wrote": 0, "steps_after_a_failed_operation": 0,
           "error_results": 0, "differs_from_isolation": 0, "model_steps_compared": 0, "model_unsupported": 0,
           "session_lengths": {}, "generator_rejects": 0}
+    probe_example(ctx, st)
     history = []           # every session so far (a failure that needs MORE than its own session is replayed from here)
     for s in range(n_sessions):
         try:
@@ -724,6 +767,10 @@ def run_sessions(ctx, stats):
                 key = "session-roundtrip" if alone else "generic-roundtrip"
                 if not alone and single_column_sheet(flat, op, res):
                     key = "single-column-sheet-export-crashes"
+                if v.viol_by_key.get(key, 0) >= 2 or any(kf["key"] == key for kf in v.known):
+                    # this class was reported twice already (or is a known finding): counted, not minimised again
+                    v.failing_input(key, f"{_show_op(flat, op)} returns {res!r}", dict(fn="session", decls=j_decls(decls), ops=ops[:i + 1], share=share))
+                    continue
                 small = minimise(decls, ops, i, share, lambda fl, o, r: step_verdict(fl, o, r)[0])
                 rep = dict(fn="session", decls=j_decls(decls), ops=small, share=share)
                 if not _reproduces(rep):
